@@ -124,8 +124,8 @@ fn check_set(v: Pv, hs: Hs, m: usize, w: &[(u64, f64)], rng: &mut Rng, do_single
     }
     // ---- R1 entry points and batchings (on a shuffled order)
     let entries: Vec<Entry> = match v {
-        Pv::P2 => vec![Entry::Wset, Entry::HashMapStd],
-        Pv::P3 => vec![Entry::Wset, Entry::IdxMap, Entry::HashMapStd],
+        Pv::P2 => vec![Entry::Wset, Entry::HashMapStd, Entry::Batches(rng.random_range(2..=4)), Entry::HashBatches(2)],
+        Pv::P3 => vec![Entry::Wset, Entry::IdxMap, Entry::HashMapStd, Entry::Batches(rng.random_range(2..=5)), Entry::HashBatches(3)],
         _ => vec![Entry::IdxMap, Entry::HashMapStd, Entry::Batches(2), Entry::Batches(rng.random_range(2..=4)), Entry::HashBatches(3)],
     };
     for e in entries {
